@@ -33,6 +33,12 @@ def diff_present(a, b):
     if [v[0] for v in a['vars']] != [v[0] for v in b['vars']]:
         out.append(('species-order', '%r != %r' % ([v[0] for v in b['vars']], [v[0] for v in a['vars']])))
     for va, vb in zip(a['vars'], b['vars']):
+        if va != vb and va[0] == 'ETFLAG' and va[1:3] == vb[1:3]:
+            # hour 24 of a day and hour 0 of the next day are one instant: end flags are compared as instants
+            fa = np.frombuffer(va[3], dtype=va[1]).reshape(va[2])
+            fb = np.frombuffer(vb[3], dtype=vb[1]).reshape(vb[2])
+            if [camx_u.norm_flag(x) for x in fa.reshape(-1, 2)] == [camx_u.norm_flag(x) for x in fb.reshape(-1, 2)]:
+                continue
         if va != vb:
             what = 'time-flags' if 'FLAG' in va[0] else 'data'
             aa = np.frombuffer(va[3], dtype=va[1]).ravel()
@@ -148,7 +154,7 @@ class Prop(c09.Prop):
                     vs.append(viol('instants', sig, 'TFLAG after write/read %r, encoded %r' % (gt, tb[:n]), **scope))
             if 'ETFLAG' in fb.variables.keys():
                 ge = [tuple(int(x) for x in row) for row in np.asarray(fb.variables['ETFLAG'][...])[:, 0, :]]
-                if ge != te[:n]:
+                if [camx_u.norm_flag(x) for x in ge] != [camx_u.norm_flag(x) for x in te[:n]]:
                     vs.append(viol('end-instants', sig, 'ETFLAG after write/read %r, encoded %r' % (ge, te[:n]),
                                    **scope))
         except Exception as e:
